@@ -716,18 +716,30 @@ def assemble(unit_path, repo, vf_dir):
             # balanced block that starts where <regex> matches (typically `match <scrutinee> {`) -- is
             # emitted verbatim (after the usual rewrites).  Fragment-level contracts are labelled as
             # such in evidence: the code around the fragment is not verified.
-            mm = re.match(r'%frag\s+(\w+)\s+/(.*)/\s*$', s)
-            fname, frx = mm.group(1), mm.group(2)
+            # %frag <fn> /<start regex>/ .. /<end regex>/ : the statements from where <start> matches up to
+            # (not including) where <end> matches -- a balanced run of statements, in source order.
+            mm = re.match(r'%frag\s+(\w+)\s+/(.*?)/\s*(?:\.\.\s*/(.*)/)?\s*$', s)
+            fname, frx, erx = mm.group(1), mm.group(2), mm.group(3)
             lo, hi = cur_range()
             hs, sig_start, ob, cb = find_fn(src, mask, lo, hi, fname)
             m2 = re.search(frx, mask[ob:cb])
             if not m2:
                 raise Lost('fragment /%s/ not found in fn %s' % (frx, fname))
-            bo = ob + m2.end() - 1
-            if src[bo] != '{':
-                raise Lost('fragment regex must end at an opening brace')
-            bc = match_close(src, bo)
-            ftext = src[ob + m2.start():bc + 1]
+            if erx:
+                m3e = re.search(erx, mask[ob + m2.end():cb])
+                if not m3e:
+                    raise Lost('fragment end /%s/ not found after /%s/ in fn %s' % (erx, frx, fname))
+                ftext = src[ob + m2.start():ob + m2.end() + m3e.start()]
+                fm = code_mask(ftext)
+                if fm.count('{') != fm.count('}') or fm.count('(') != fm.count(')'):
+                    raise Lost('fragment /%s/../%s/ of fn %s is not a balanced run of statements' % (frx, erx, fname))
+                frx = frx + '/../' + erx
+            else:
+                bo = ob + m2.end() - 1
+                if src[bo] != '{':
+                    raise Lost('fragment regex must end at an opening brace')
+                bc = match_close(src, bo)
+                ftext = src[ob + m2.start():bc + 1]
             sha = hashlib.sha256(ftext.encode()).hexdigest()
             i += 1
             fsub = []
